@@ -115,7 +115,10 @@ def _apply_history(oc, case):
         elif op[0] == "set_ttot":
             oc.t_tot = op[1]
         elif op[0] == "set_hold_duration" and oc.holding:
-            oc.holding[op[1] % len(oc.holding)]["duration"] = op[2]
+            # through the property setter (which re-orders the holds), not by mutating a dict
+            hs = [dict(h) for h in oc.holding]
+            hs[op[1] % len(hs)]["duration"] = op[2]
+            oc.holding = hs
         elif op[0] == "consume0D":
             try:
                 from ethz_snow.snowing import Snowing
